@@ -298,6 +298,24 @@ def check_toplevel(ka, kb, kc, t0, d0, nsdepth):
             if len(chain[3]) != 1 or chain[3][0][0] != "namespace" or chain[3][0][1] != n or chain[3][0][2] != (path[depth - 1] if depth else ""):
                 return _fail(text=text, problem="enclosing namespaces do not mirror the source", got=p)
             chain = chain[3][0]
+    if ok:
+        # the namespace path every node reports (not only its parent link) is the path it is written in
+        def walk(ns, trail):
+            for e in ns.content:
+                here = [""] + list(trail)
+                if isinstance(e, parser.Namespace):
+                    if e.full_namespaces() != here + [e.name]:
+                        return (e.name, e.full_namespaces(), here + [e.name])
+                    bad = walk(e, trail + (e.name,))
+                    if bad:
+                        return bad
+                elif hasattr(e, "namespaces") and callable(e.namespaces):
+                    if list(e.namespaces()) != here:
+                        return (getattr(e, "name", type(e).__name__), list(e.namespaces()), here)
+            return None
+        bad = walk(parser.Module.parseString(text), ())
+        if bad:
+            return _fail(text=text, problem="%r reports the namespace path %r, it is declared in %r" % bad)
     return ok
 
 
